@@ -117,7 +117,15 @@ func (o *Outcome) violate(tr *Trace, oracle, detail string, feat map[string]stri
 			feat = map[string]string{}
 		}
 		if _, ok := feat["same_as_stdlib_writer"]; !ok {
-			feat["same_as_stdlib_writer"] = fmt.Sprint(sameAsStdlibAll(tr.W))
+			// the destination that is being judged: a named segment, the last one
+			// (C12: the stream after the last Reset), or all of them
+			seg := -1
+			if v, ok := feat["segment"]; ok {
+				fmt.Sscan(v, &seg)
+			} else if tr.Property == "C12" {
+				seg = -2
+			}
+			feat["same_as_stdlib_writer"] = fmt.Sprint(sameAsStdlibSeg(tr.W, seg))
 		}
 	}
 	c := tr.Clone()
